@@ -808,6 +808,89 @@ func srvXClientCheck(o *common.Out, id, abstract string, rig *srvRig, reqs []sre
 // Asynchronous response writes (server.WithAsyncWrite, with and without a worker pool): the write of a response is
 // handed to another goroutine.  The transport takes the bytes of response 1 late - after response 2 has been
 // computed and encoded: each request is still answered exactly once with its own result.  case: async|<pool>|<style>
+type closeNoteConn struct {
+	net.Conn
+	once   sync.Once
+	closed chan struct{}
+}
+
+func (c *closeNoteConn) Close() error {
+	c.once.Do(func() { close(c.closed) })
+	return c.Conn.Close()
+}
+
+type wroteNotePlugin struct{ ch chan struct{} }
+
+func (p *wroteNotePlugin) PostWriteResponse(ctx context.Context, req, res *protocol.Message, err error) error {
+	select {
+	case p.ch <- struct{}{}:
+	default:
+	}
+	return nil
+}
+
+// srvGoneClient: the client hangs up while its request is in the handler; the server has closed the connection when the
+// handler returns (with or without a write timeout configured, which makes the server touch the dead connection before
+// it writes).  The response is lost - afterwards the frame pool is as sound as before: eight encoders holding their
+// frames hold eight buffers.  Oracle only.  case: gone|<pool>|<write timeout>|<style>
+func srvGoneClient(o *common.Out, id string, pool, wt bool, style string) {
+	abstract := fmt.Sprintf("gone|%v|%v|%s", pool, wt, style)
+	o.Begin(id, abstract)
+	o.Count("client-gone-before-the-response")
+	prev := runtime.GOMAXPROCS(1)
+	defer runtime.GOMAXPROCS(prev)
+	var opts []server.OptionFn
+	if pool {
+		opts = append(opts, server.WithPool(4, 64))
+	}
+	if wt {
+		opts = append(opts, server.WithWriteTimeout(2*time.Second))
+	}
+	rig := newSrvRig(true, opts...)
+	var cn *closeNoteConn
+	rig.ln.wrap = func(c net.Conn) net.Conn { cn = &closeNoteConn{Conn: c, closed: make(chan struct{})}; return cn }
+	wp := &wroteNotePlugin{ch: make(chan struct{}, 4)}
+	rig.srv.Plugins.Add(wp)
+	rig.start()
+	defer rig.stop()
+	peer, err := rig.connect()
+	if err != nil {
+		o.Fail(id, "rig", err.Error(), abstract)
+		return
+	}
+	q := sreqCase{seq: 21, style: style, ser: 1, a: 3, b: 5, mode: "ok"}
+	path, meth := q.pathMethod()
+	if err := peer.send(reqSpec{seq: q.seq, path: path, method: meth, ser: 1, payload: q.payload(0),
+		meta: []refcodec.KV{{K: []byte("rid"), V: []byte("0")}}}); err != nil {
+		o.Fail(id, "rig", err.Error(), abstract)
+		return
+	}
+	select {
+	case <-rig.h.entered:
+	case <-time.After(3 * time.Second):
+		o.Fail(id, "no-handler", "the request never reached its handler", abstract)
+		return
+	}
+	peer.close()
+	select {
+	case <-cn.closed:
+	case <-time.After(3 * time.Second):
+		o.Fail(id, "rig", "the server did not close the connection its peer had left", abstract)
+		return
+	}
+	rig.h.release(0)
+	<-rig.h.finished
+	select {
+	case <-wp.ch:
+	case <-time.After(400 * time.Millisecond):
+		// no post-write stage for this response (a router handler writes by itself): the write path has had its time
+	}
+	if bad := framePoolProbe(); bad != "" {
+		o.Fail(id, "pooled-object-shared", "after a response that could not be delivered (client gone): "+bad, abstract)
+	}
+	o.ImplOnly(id, abstract, true)
+}
+
 func srvAsyncWrite(o *common.Out, id string, pool bool, style string) {
 	abstract := fmt.Sprintf("async|%v|%s", pool, style)
 	o.Begin(id, abstract)
@@ -1166,6 +1249,11 @@ func runSrv(prop string, r *common.Rand, tier string, o *common.Out, replay stri
 		srvAsyncWrite(o, "replay", p[1] == "true", p[2])
 		return
 	}
+	if strings.HasPrefix(replay, "gone|") {
+		p := strings.Split(replay, "|")
+		srvGoneClient(o, "replay", p[1] == "true", p[2] == "true", p[3])
+		return
+	}
 	if strings.HasPrefix(replay, "qpool|") {
 		p := strings.Split(replay, "|")
 		var reqs []sreqCase
@@ -1257,6 +1345,10 @@ func runSrv(prop string, r *common.Rand, tier string, o *common.Out, replay stri
 				}
 				if prop != "C20" {
 					srvAsyncWrite(o, fmt.Sprintf("asyncf%d", k), pool, style+"!")
+				}
+				if prop != "C07" {
+					srvGoneClient(o, fmt.Sprintf("gone%d", k), pool, k%2 == 1, style)
+					srvGoneClient(o, fmt.Sprintf("gonew%d", k), pool, k%2 == 0, style)
 				}
 			}
 		}
